@@ -111,6 +111,8 @@ class World:
                        "cache": {"enabled": self.cached}, "cache_bust_mode": "on-apply"},
                 # the caps are always configured; the master switch decides whether they are effective
                 "perf": {"enabled": self.perf, "t1": {"caps": {"frontier": 2}}}}
+        if getattr(self, "twin", False):
+            over["t2"]["residual_cap_per_turn"] = 1      # (twin mode) the first label of the label map that a used hit mentions
         c = self.E.validated_cfg(over)
         if self.relax:
             # t1.relax_cap is read by the stage but is not a key of the validator's schema: set after validation
@@ -153,8 +155,13 @@ class World:
             st.upsert_nodes("g:surface", [Node(id="n:p1", label=lc), Node(id="n:p2", label=lb)])
         elif name == "add_node":
             st = self.states[s]["store"]
-            st.upsert_nodes("g:surface", [Node(id="n:bread", label="bread")])
-            st.upsert_edges("g:surface", [Edge(id="e9", src="n:banana", dst="n:bread", weight=0.9, rel="supports")])
+            if getattr(self, "twin", False):
+                # twin mode: the new node is isolated and carries a label that another node already carries ("story"); its id
+                # sorts first, so the label map keeps its items and changes only its iteration order
+                st.upsert_nodes("g:surface", [Node(id="n:a0", label="story")])
+            else:
+                st.upsert_nodes("g:surface", [Node(id="n:bread", label="bread")])
+                st.upsert_edges("g:surface", [Edge(id="e9", src="n:banana", dst="n:bread", weight=0.9, rel="supports")])
         elif name == "add_episode":
             owner, text = EPS[ev["e"]]
             self.states[s]["mem_index"].add(self.E.mk_episode(ev["e"], owner, text, ts="2025-08-20T00:00:00Z",
@@ -213,12 +220,14 @@ def replay_history(case) -> Dict[str, Any]:
     try:
         # every history runs twice: with the text token spelled identically on every turn (repeated turns hit the caches)
         # and with the spelling rotating from turn to turn (a key that folds spellings serves the wrong entry)
-        for spell in (False, True):
+        has_add = any(ev["ev"] == "add_node" for ev in h)
+        for spell in ((False, True, "twin") if has_add else (False, True)):
             res = {}
             for cached in (True, False):
                 E.reset_global_caches()
                 w = World(cached, work, case.get("init_eps", ()))
-                w.spell = spell
+                w.spell = spell is True
+                w.twin = spell == "twin"
                 seq = []
                 for ev in h:
                     if ev["ev"] == "turn":
@@ -230,7 +239,7 @@ def replay_history(case) -> Dict[str, Any]:
             for i, ev in enumerate(h):
                 if ev["ev"] != "turn":
                     continue
-                if not spell:
+                if spell is False:
                     for cache in ("t1", "t2", "tl"):
                         for cause in ev["obs"][cache]["cause"]:
                             # predictions of the weakest-key model count only for components the current keys lack
@@ -240,7 +249,7 @@ def replay_history(case) -> Dict[str, Any]:
                 a, b = res[True][i], res[False][i]
                 for stage in ("t1", "t2"):
                     if a.get(stage) != b.get(stage):
-                        out["mismatch"].append((i, stage, ("[spellings rotate] " if spell else "") + _diff(a.get(stage), b.get(stage))))
+                        out["mismatch"].append((i, stage, ("[spellings rotate] " if spell is True else "[twin label, residual cap 1] " if spell == "twin" else "") + _diff(a.get(stage), b.get(stage))))
             if out["mismatch"]:
                 break
     except Exception as e:
